@@ -385,11 +385,13 @@ type fakeConsul struct {
 	index   uint64
 	checks  api.HealthChecks
 	catalog []*api.CatalogService
+	kvIndex uint64
+	kv      api.KVPairs
 	srv     *httptest.Server
 }
 
 func newFake() *fakeConsul {
-	f := &fakeConsul{index: 1}
+	f := &fakeConsul{index: 1, kvIndex: 1}
 	f.cond = sync.NewCond(&f.mu)
 	f.srv = httptest.NewServer(http.HandlerFunc(f.handle))
 	return f
@@ -399,6 +401,14 @@ func (f *fakeConsul) set(checks api.HealthChecks, catalog []*api.CatalogService)
 	f.mu.Lock()
 	f.checks, f.catalog = checks, catalog
 	f.index++
+	f.mu.Unlock()
+	f.cond.Broadcast()
+}
+
+func (f *fakeConsul) setKV(kv api.KVPairs) {
+	f.mu.Lock()
+	f.kv = kv
+	f.kvIndex++
 	f.mu.Unlock()
 	f.cond.Broadcast()
 }
@@ -438,6 +448,27 @@ func (f *fakeConsul) handle(w http.ResponseWriter, r *http.Request) {
 		}
 		idx := f.index
 		f.mu.Unlock()
+		writeJSON(idx, out)
+	case strings.HasPrefix(p, "/v1/kv/"):
+		prefix := strings.TrimPrefix(p, "/v1/kv/")
+		want, _ := strconv.ParseUint(r.URL.Query().Get("index"), 10, 64)
+		f.mu.Lock()
+		for f.kvIndex <= want {
+			f.cond.Wait()
+		}
+		idx := f.kvIndex
+		out := api.KVPairs{}
+		for _, kv := range f.kv {
+			if strings.HasPrefix(kv.Key, prefix) {
+				out = append(out, kv)
+			}
+		}
+		f.mu.Unlock()
+		if len(out) == 0 { // Consul answers 404 (with the index) when nothing is stored under the prefix
+			w.Header().Set("X-Consul-Index", strconv.FormatUint(idx, 10))
+			w.WriteHeader(http.StatusNotFound)
+			return
+		}
 		writeJSON(idx, out)
 	default:
 		http.NotFound(w, r)
@@ -556,13 +587,13 @@ func partB(run *vh.Run) {
 	r := run.Rng
 	nh := run.Scale(36, 600)
 	type hist struct {
-		class                 string
-		prefix                string
-		status                []string
-		strict                bool
-		inconsistent          bool
-		states                []regState
-		monitors              int
+		class        string
+		prefix       string
+		status       []string
+		strict       bool
+		inconsistent bool
+		states       []regState
+		monitors     int
 	}
 	var hists []hist
 	// directed histories first: the two recorded defects and their neighbours
@@ -601,7 +632,7 @@ func partB(run *vh.Run) {
 		if i%15 == 11 {
 			h.prefix, h.class = "v", "svc-history-other-prefix"
 		}
-		insts := genInstances(r, 1+r.Intn(3), 1+r.Intn(4), spaced)
+		insts := genInstances(r, 1+r.Intn(3), 2+r.Intn(3), spaced)
 		st := regState{insts: insts, checks: genChecks(r, insts, i%5 == 0)}
 		h.states = append(h.states, st)
 		for k, n := 0, 2+r.Intn(4); k < n; k++ {
@@ -928,10 +959,92 @@ func partC(run *vh.Run) {
 	}
 }
 
+// ---------- D: the manual overrides pushed by watchKV ----------
+
+var kvValues = []string{"route add man /m http://9.9.9.9:99/", "  route del svc-a\n", "", "route add man x.com/ http://9.9.9.8:98/\nroute weight svc-a /foo weight 0.3\n\n",
+	"\t# only a comment ", "route del svc-b /foo", " \n "}
+
+func partD(run *vh.Run) {
+	r := run.Rng
+	nh := run.Scale(10, 150)
+	type kvHist struct {
+		states []api.KVPairs
+		texts  []string
+		err    string
+	}
+	hists := make([]kvHist, nh)
+	for hi := range hists {
+		var cur api.KVPairs
+		for k, n := 0, 2+r.Intn(4); k < n; k++ {
+			switch {
+			case k == 0 && hi%3 == 0: // nothing stored yet
+			case r.Intn(5) == 0 && k > 0: // index moves, content does not (another key elsewhere was written)
+			default:
+				cur = nil
+				keys := []string{"fabio/config", "fabio/config/extra", "fabio/config/team-b", "fabio/configother"}
+				for _, key := range keys {
+					if r.Intn(2) == 0 {
+						cur = append(cur, &api.KVPair{Key: key, Value: []byte(kvValues[r.Intn(len(kvValues))])})
+					}
+				}
+			}
+			hists[hi].states = append(hists[hi].states, append(api.KVPairs{}, cur...))
+		}
+	}
+	var wg sync.WaitGroup
+	for hi := range hists {
+		wg.Add(1)
+		go func(h *kvHist) {
+			defer wg.Done()
+			f := newFake()
+			f.kv = h.states[0]
+			cfg := &config.Consul{Addr: strings.TrimPrefix(f.srv.URL, "http://"), Scheme: "http", TagPrefix: tagPrefix,
+				ServiceStatus: []string{"passing"}, KVPath: "/fabio/config"}
+			be, err := consul.NewBackend(cfg)
+			if err != nil {
+				h.err = "NewBackend: " + err.Error()
+				return
+			}
+			ch := be.WatchManual()
+			for k := range h.states {
+				if k > 0 {
+					f.setKV(h.states[k])
+				}
+				select {
+				case t := <-ch:
+					h.texts = append(h.texts, t)
+				case <-time.After(20 * time.Second):
+					h.err = fmt.Sprintf("no manual config pushed for KV state %d within 20 s", k)
+					return
+				}
+			}
+		}(&hists[hi])
+	}
+	wg.Wait()
+	for _, h := range hists {
+		if h.err != "" {
+			run.Violation(run.NextID(), "consul backend against the fake Consul: "+h.err, nil)
+			continue
+		}
+		for k, st := range h.states {
+			var items, human []string
+			for _, kv := range st {
+				if strings.HasPrefix(kv.Key, "fabio/config") {
+					items = append(items, vh.Pair(vh.HxS(kv.Key), vh.Hx(kv.Value)))
+					human = append(human, fmt.Sprintf("%s=%q", kv.Key, kv.Value))
+				}
+			}
+			run.Add("kv-history", vh.App("CKv", vh.List(items), vh.HxS(h.texts[k])),
+				map[string]interface{}{"step": k, "kv": human, "pushed": h.texts[k]})
+		}
+	}
+}
+
 func main() {
 	run := vh.Start("C01")
 	partA(run)
 	partB(run)
 	partC(run)
+	partD(run)
 	run.Finish(preamble, run.Scale(110, 1800))
 }
